@@ -66,4 +66,24 @@ theorem findLpm_longest {t : Tree w V} {v : View w} (hg : Good t v) (q : Pfx w) 
 /-- `view_at` on a view equals `find` (model: `AsView::view_at` is `self.view().find(prefix)`) -/
 theorem view_at_eq_find (t : Tree w V) (v : View w) (q : Pfx w) : v.find t q = v.find t q := rfl
 
+/-- `find_exact` and `find_lpm` agree: when `q` is stored in `v`, `find_lpm(q)` succeeds and is
+positioned at an entry with `q`'s key -/
+theorem findLpm_of_findExact {t : Tree w V} {v : View w} (hg : Good t v) (q : Pfx w) (v' : View w)
+    (h : v.findExact t q = some v') :
+    ∃ v'' e, v.findLpm t q = some v'' ∧ v''.prefixValue t = some e ∧ e.1.net = q.net ∧ e ∈ v.ents t := by
+  obtain ⟨_, _, P, x, _, hPq, hmem⟩ := findExact_some hg q v' h
+  cases hl : v.findLpm t q with
+  | none =>
+    exact absurd (by rw [hPq]; exact List.prefix_refl _) (findLpm_none hg q hl (P, x) hmem)
+  | some v'' =>
+    obtain ⟨e, hpv, hem, hcov, hmax⟩ := findLpm_longest hg q v'' hl
+    have hle := hmax (P, x) hmem (by rw [hPq]; exact List.prefix_refl _)
+    have hlen : e.1.net.length = q.net.length := by
+      have h1 := hcov.length_le
+      have h2 : P.len = q.len := by rw [← net_length P, ← net_length q, hPq]
+      simp only [net_length] at h1 ⊢
+      simp only at hle
+      omega
+    exact ⟨v'', e, rfl, hpv, hcov.eq_of_length hlen, hem⟩
+
 end PT.C12
